@@ -373,6 +373,19 @@ def c13(prop, tier):
                        "tlc Auth.tla + vh auth (real binary)")
 
 
+@check("C02")
+def c02(prop, tier):
+    models = [
+        ("CasBlob", "CasBlob.tla", "CasBlob.cfg", "the chunked readers written step for step (seek to chunk, decode one chunk, drop, last-chunk test, stream the rest) for every blob size 1..8, chunk size 1..3 and offset < size: delivered = bytes [off, size)", "cb"),
+    ]
+    drivers = [("reads", ["reads", "-cases", "{cb}", "-tier", "{tier}", "-seed", "{seed}"])]
+    return multi_check(prop, tier, models, drivers,
+                       ["each abstract (size, chunk size, offset) is scaled to the real 1 MiB chunk size (blobs written by the real writer) and to 1366 B / 21846 B units (files written by an independent writer of the published format, loaded at start), with -1/0/+1 perturbations of size and offset",
+                        "every blob x offset is read through disk.Get / GetZstd (size known and unknown), ByteStream.Read blobs/ and compressed-blobs/zstd/ with offset and read_limit, and at offset 0 through HTTP GET (identity and zstd), HEAD and BatchReadBlobs (identity and zstd); zstd answers are decoded by the harness before comparison",
+                        "writer storage mode x reader storage mode (restart in between) x codec implementation; the cgo codec in the thorough tier only"],
+                       "tlc CasBlob.tla + vh reads")
+
+
 @check("C09")
 def c09(prop, tier):
     models = [
